@@ -416,11 +416,19 @@ func c01(c *ctx) {
 	pr := prepare("session")
 	tp := c01Templates(pr.p.IP, pr.p.Addr)
 	n := c.pick(3000, 300000)
+	rawFailures := 0
 	for i := 0; i < n; i++ {
 		t := tp[c.rng.Intn(len(tp))]
 		dg := datagram(t.msgType, t.hasSEID, pr.seid, pr.p.NextSeq(), t.ies)
 		var kind string
-		switch c.rng.Intn(4) {
+		sel := c.rng.Intn(25)
+		if sel < 24 {
+			sel %= 4
+		}
+		switch sel {
+		case 24: // (1 in 25) the empty datagram: a successful read of zero bytes on the association's socket
+			kind = "empty"
+			dg = []byte{}
 		case 0:
 			kind = "random"
 			dg = make([]byte, c.rng.Intn(200))
@@ -441,13 +449,10 @@ func c01(c *ctx) {
 				}
 			}
 		}
-		if len(dg) == 0 {
-			continue
-		}
 		if err := pr.p.SendRaw(dg); err != nil {
 			continue
 		}
-		if i%50 == 49 || i == n-1 {
+		if i%50 == 49 || i == n-1 || len(dg) == 0 {
 			// liveness barrier on the same association; the association may have been released by a mutated datagram
 			_, barrier := pr.p.Exchange(sysh.Marshal(message.NewHeartbeatRequest(pr.p.NextSeq(), ie.NewRecoveryTimeStamp(time.Unix(1700000000, 0)), nil)), w.wait)
 			alive := !w.s.Exited()
@@ -462,6 +467,9 @@ func c01(c *ctx) {
 			}
 			c.t.Case("c01/raw/"+kind, true, "raw %d => %d %d %s", i, b01(alive), b01(barrier), crash)
 			if !alive || !barrier {
+				if rawFailures++; rawFailures >= 4 {
+					break // each is a violation already; the agent is restarted for every one of them
+				}
 				w.s.Kill()
 				if !w.start() {
 					return
